@@ -24,6 +24,9 @@ Same(a, b) == Id(a) = Id(b)
 Definers == {
   <<"setv", "var">>, <<"defn", "var">>, <<"defclass", "var">>, <<"import-as", "var">>, <<"import-module-as", "var">>, <<"for", "var">>,
   <<"with-as", "var">>, <<"setx", "var">>, <<"global-setv", "var">>, <<"let-free-setv", "var">>,
+  \* assignments whose value is left in a compiler temporary that is then renamed to the target
+  <<"setv-try", "var">>, <<"setv-if-stmt", "var">>, <<"setx-try", "var">>, <<"aug-assign", "var">>, <<"match-capture", "var">>,
+  <<"del-then-setv", "var">>, <<"nonlocal-setv", "var">>,
   <<"defmacro", "macro">>,
   <<"param", "param">>,
   <<"kwarg", "key">>, <<"dict-mangled", "key">>,
